@@ -14,35 +14,37 @@ package tex
 //@ pure quoted(b []byte) bool = len(b) >= 2 && b[0] == 34 && b[len(b)-1] == 34
 //@ pure inner(b []byte) string = string(b[1:len(b)-1])
 //
-// ---- encoders: the output is the quoted library numeral of the value ----
+// ---- encoders: the output is a quoted numeral that the library parser maps back to the value ----
+// (the `use` lines name the string the library formatter returned - fmti64 etc. are the functional views of
+// strconv.FormatInt etc. - so that extensionality identifies it with the copied bytes)
 //@ lemma strext(s string, t string)
 //@   trusted string extensionality: Go strings of equal length with equal bytes are equal
 //@   requires len(s) == len(t) && forall k int :: 0 <= k && k < len(s) ==> s[k] == t[k]
 //@   ensures s == t
 //
 //@ func JsInt64.MarshalJSON
-//@   ensures #quoted result1 == nil && quoted(result0) && len(result0) == len(fmti64(int64(i), 10)) + 2
-//@   ensures #numeral inner(result0) == fmti64(int64(i), 10)
+//@   ensures #quoted result1 == nil && quoted(result0) && len(result0) > 2
+//@   ensures #numeral isint(inner(result0)) && ival(inner(result0)) == int(int64(i))
 //@   modifies region($alloc)
 //@   use strext(inner(result0), fmti64(int64(i), 10))
 //@ func JsUInt64.MarshalJSON
-//@   ensures #quoted result1 == nil && quoted(result0) && len(result0) == len(fmtu64(uint64(i), 10)) + 2
-//@   ensures #numeral inner(result0) == fmtu64(uint64(i), 10)
+//@   ensures #quoted result1 == nil && quoted(result0) && len(result0) > 2
+//@   ensures #numeral isuint(inner(result0), 10) && uval(inner(result0), 10) == uint64(i)
 //@   modifies region($alloc)
 //@   use strext(inner(result0), fmtu64(uint64(i), 10))
 //@ func UnixStamp.MarshalJSON
-//@   ensures #quoted result1 == nil && quoted(result0) && len(result0) == len(fmti64(int64(i), 10)) + 2
-//@   ensures #numeral inner(result0) == fmti64(int64(i), 10)
+//@   ensures #quoted result1 == nil && quoted(result0) && len(result0) > 2
+//@   ensures #numeral isint(inner(result0)) && ival(inner(result0)) == int(int64(i))
 //@   modifies region($alloc)
 //@   use strext(inner(result0), fmti64(int64(i), 10))
 //@ func JsUnixTime.MarshalJSON
-//@   ensures #quoted result1 == nil && quoted(result0) && len(result0) == len(fmti64(spec_unix(time.Time(i)), 10)) + 2
-//@   ensures #numeral inner(result0) == fmti64(spec_unix(time.Time(i)), 10)
+//@   ensures #quoted result1 == nil && quoted(result0) && len(result0) > 2
+//@   ensures #numeral isint(inner(result0)) && ival(inner(result0)) == int(spec_unix(time.Time(i)))
 //@   modifies region($alloc)
 //@   use strext(inner(result0), fmti64(spec_unix(time.Time(i)), 10))
 //@ func Duration.MarshalJSON
-//@   ensures #quoted result1 == nil && quoted(result0) && len(result0) == len(fmtdur(int64(i))) + 2
-//@   ensures #numeral inner(result0) == fmtdur(int64(i))
+//@   ensures #quoted result1 == nil && quoted(result0) && len(result0) > 2
+//@   ensures #numeral isdur(inner(result0)) && durval(inner(result0)) == int64(i)
 //@   modifies region($alloc)
 //@   use strext(inner(result0), fmtdur(int64(i)))
 //
@@ -90,27 +92,22 @@ package tex
 //@   requires ErrInvalidInt64Js != nil
 //@   ensures #roundtrip result1 == nil && result0 == v
 //@   modifies region($alloc)
-//@   use fmtparse_i64(int64(v))
 //@ func verifRoundTripJsUInt64
 //@   requires ErrInvalidInt64Js != nil && ErrInvalidUInt64Js != nil
 //@   ensures #roundtrip result1 == nil && result0 == v
 //@   modifies region($alloc)
-//@   use fmtparse_u64(uint64(v))
 //@ func verifRoundTripUnixStamp
 //@   requires ErrInvalidInt64Js != nil
 //@   ensures #roundtrip result1 == nil && result0 == v
 //@   modifies region($alloc)
-//@   use fmtparse_i64(int64(v))
 //@ func verifRoundTripJsUnixTime
 //@   requires ErrInvalidInt64Js != nil
 //@   ensures #roundtrip result1 == nil && spec_unix(time.Time(result0)) == spec_unix(time.Time(v))
 //@   modifies region($alloc), JsUnixTime.wall, JsUnixTime.ext, JsUnixTime.loc
-//@   use fmtparse_i64(spec_unix(time.Time(v)))
 //@ func verifRoundTripDuration
 //@   requires ErrInvalidDuration != nil
 //@   ensures #roundtrip result1 == nil && result0 == v
 //@   modifies region($alloc)
-//@   use fmtparse_dur(int64(v))
 //
 //@ func JsByte.FromString
 //@   requires i != nil && ErrInvalidByteJs != nil
